@@ -283,11 +283,11 @@ func init() {
 				"after a read error or EOF the device no longer answers; writes are either dropped silently or still delivered (both variants generated)",
 				"leg N runs the same enumeration over NETCONF sessions (scenario family C06N)",
 			},
-			QuickRuns: 48,
+			QuickRuns: 128,
 			ThoroughS: 600,
 			Legs: []Leg{
-				{Name: "D", QuickRuns: 48, Share: 0.7},
-				{Name: "N", Prop: "C06N", QuickRuns: 40, Share: 0.3},
+				{Name: "D", QuickRuns: 128, Share: 0.7},
+				{Name: "N", Prop: "C06N", QuickRuns: 80, Share: 0.3},
 			},
 		},
 		Gen:    genC06,
